@@ -25,7 +25,7 @@ RULE = ("simulated elections with per-contest shortfalls none / one / all differ
         "phantom MVR lowered the assorter; distinct = hash of the spec")
 REQUIRED = ["contract:CVR.make_phantoms", "accounting_checked:style", "accounting_checked:no_style", "phantoms_created",
             "zero_shortfall_after_positive_shortfall", "bounds_unspecified", "worstcase_pairs", "phantom_mvr_strictly_lower",
-            "phantom_cvr_pairs", "phantom_cvr_with_votes_pairs", "shortfalls_all_different", "assorter:plurality", "assorter:supermajority", "assorter:irv"]
+            "phantom_cvr_pairs", "phantom_cvr_with_votes_pairs", "second_call_on_same_input_list", "shortfalls_all_different", "assorter:plurality", "assorter:supermajority", "assorter:irv"]
 ASSUMPTIONS = ["card bounds >= number of CVRs listing the contest; input lists contain no phantoms",
                "a phantom labelled pooled inside a pooled batch is scored with that batch's mean by design (C03 depends "
                "on it): the 1/2 clause is asserted for unpooled phantom CVRs"]
@@ -151,6 +151,25 @@ def run_case(es, rec):
         return
     CVR = sim.L["CVR"]
     lowered = 0
+    # the same call again on the caller's own list (a notebook cell re-run, a revised bound): the contract checks the
+    # accounting and the uniqueness of identifiers again - nothing of the first call may have leaked into the input
+    if len(sim.real_list) <= len(es["cards"]) + 0 or True:
+        tp, pool = es["phantom_pool"]
+        bounds_before = {cid: con.cards for cid, con in sim.contests.items()}
+        stratum = next(iter(sim.audit.strata.values()))
+        max_before = stratum.max_cards
+        stratum.max_cards = max_before + 2          # the bound on cards was revised upwards in the meantime
+        if sim.use_style:
+            for con in sim.contests.values():
+                con.cards = con.cards + 2
+        ok, again = rec.guard("c08.call:make_phantoms:second_call", CVR.make_phantoms, audit=sim.audit, contests=sim.contests,
+                              cvr_list=sim.real_list, prefix="phantom-1-", tally_pool=tp, pool=pool)
+        if not ok:
+            return
+        rec.count("second_call_on_same_input_list")
+        stratum.max_cards = max_before
+        for cid, con in sim.contests.items():
+            con.cards = bounds_before[cid]
     with np.errstate(all="ignore"):
         for cid, con in sim.contests.items():
             sc = es["contests"][cid]
